@@ -3,4 +3,5 @@ package props
 
 import (
 	_ "go.amzn.com/verifh/c11"
+	_ "go.amzn.com/verifh/smoke"
 )
